@@ -428,7 +428,7 @@ pub fn run(run: &Run) {
     run.assume("every delivered stream is read to its end in its own task so that stream credit is returned");
     prop_search(
         run,
-        Search { check: "delivery", cases: run.tier.pick(800, 6000), workers: 8, max_shrink_iters: 40 },
+        Search { check: "delivery", cases: run.tier.pick(800, 30000), workers: 8, max_shrink_iters: 40 },
         case_strategy,
         |c| judge(|| exec(c), true, "C08:lost-timeout"),
         |c| serde_json::to_value(c).unwrap(),
